@@ -45,7 +45,9 @@ TNew == /\ IsEvent("new") /\ building = 0
 \* a write by the constructor's helper loop: must be what the injection rule licenses
 TInject == /\ IsEvent("set") /\ building # 0 /\ Ev.c = building
            /\ Ev.v = Builtin
-           /\ InjectGuard(data[building], outer[building], Ev.k)
+           \* licensed by the injection rule, or invisible: the built-in is what the chain already answers
+           /\ \/ InjectGuard(data[building], outer[building], Ev.k)
+              \/ Lookup(building, Ev.k) = Builtin
            /\ SetCore(Ev.c, Ev.k, Ev.v)
            /\ UNCHANGED building
 
